@@ -8,7 +8,9 @@ import Sentinel.Model.Isolation
           `exit <id>`
           `conc <res>`                          => gauge
           `sched <id0> <res> <b0,b1,…> <i0,i1,…|->`  => `[r0,…] max=<g>`   (r = `-` idle, `p` in flight, `x` exited, `b<idx>:<tv>` blocked)
-          `par <id0> <k> <res> <batch>`         = `sched id0 res b,…,b 0,…,k-1,0,…,k-1` -/
+          `par <id0> <k> <res> <batch>`         = `sched id0 res b,…,b 0,…,k-1,0,…,k-1`
+          `soak <res> <goroutines> <rounds> <batch>` => `gauge0=ok max<=<bound> rej=ok total=ok`  (real goroutines looping Entry/Exit;
+                                                  only verdicts against the bounds are printed, never the racy values) -/
 namespace Sentinel.Drv.C04
 open Sentinel.Iso Sentinel.Drv
 
@@ -38,6 +40,10 @@ def parse : List String → Option Op
       let k ← k.toNat?
       if k = 0 ∨ k > 64 then none else
       some (.sched (← id0.toNat?) res (List.replicate k (← u32? b)) (List.range k ++ List.range k))
+  | ["soak", res, g, rounds, b] => do
+      let g ← g.toNat?
+      let rounds ← rounds.toNat?
+      if g = 0 ∨ g > 64 ∨ rounds > 1000000 then none else some (.soak res g rounds (← u32? b))
   | _ => none
 
 def showPc : Pc → String
@@ -55,6 +61,7 @@ def showOut : Out → Option String
   | .dup => some "dup"
   | .val g => some (toString g)
   | .sched th mx => some (showList (th.map showPc) ++ s!" max={mx}")
+  | .soak bound => some s!"gauge0=ok max<={bound} rej=ok total=ok"
 
 def stepModel (s : St) (ts : List String) (_ : String) : St × Option String :=
   match parse ts with
